@@ -262,6 +262,11 @@ class Tr:
             if key in env:
                 return env[key]
             raise TranslationError(f"unknown dictionary entry {src}")
+        if isinstance(node, ast.Subscript) and isinstance(node.value, ast.Attribute) and node.value.attr == "shape" \
+                and isinstance(node.slice, ast.Constant) and node.slice.value == 0:
+            d = self.dotted(node.value.value)
+            if d is not None and d in env and env[d][1] == ("list", INT):
+                return f"((({env[d][0]}).length : Nat) : Int)", INT        # rows of a 1-D array / number of rows
         if isinstance(node, ast.Subscript):
             base, tb = self.expr(node.value, env)
             idx = node.slice
@@ -286,6 +291,10 @@ class Tr:
                     hi, th = self.expr(idx.upper, env)
                     if th == INT:
                         return f"(pyListTake {base} {hi})", tb                     # chunk[:pos]
+                if isinstance(idx, ast.Slice) and idx.upper is None and idx.step is None and idx.lower is not None:
+                    lo, tl = self.expr(idx.lower, env)
+                    if tl == INT:
+                        return f"(pyListDrop {base} {lo})", tb                     # next_array[remaining:]
                 if not isinstance(idx, ast.Slice):
                     i, ti = self.expr(idx, env)
                     if ti == INT:
@@ -539,6 +548,23 @@ class Tr:
                 and isinstance(node.keywords[0].value, ast.Constant) and node.keywords[0].value.value == 0:
             e, t = self.expr(node.args[0], env)
             return (f"(({e}).getD 0)", RAT) if t == NRAT else (e, t)
+        if fname == "len" and len(node.args) == 1 and isinstance(node.args[0], ast.Attribute) and node.args[0].attr == "shape":
+            d = self.dotted(node.args[0].value)
+            if d is not None and d in env and env[d][1] == ("list", INT):
+                return "(1 : Int)", INT         # a list-typed variable is a 1-D array (or: a stack of rows read row by row)
+        if fname == "np.empty" and "np.empty.fill" in env and len(node.args) == 1 and isinstance(node.args[0], ast.Tuple) \
+                and node.args[0].elts and [k.arg for k in node.keywords] in ([], ["dtype"]):
+            n, tn = self.expr(node.args[0].elts[0], env)
+            if tn == INT:
+                # uninitialised memory: every cell holds the (arbitrary) parameter `np.empty.fill`
+                return f"(List.replicate ({n}).toNat {env['np.empty.fill'][0]})", ("list", INT)
+        if fname == "np.append" and len(args) == 2 and not node.keywords and args[0][1] == args[1][1] == ("list", INT):
+            return f"({args[0][0]} ++ {args[1][0]})", ("list", INT)
+        if fname == "np.vstack" and len(node.args) == 1 and isinstance(node.args[0], ast.Tuple) and len(node.args[0].elts) == 2 \
+                and not node.keywords:
+            (a, ta), (b, tb_) = self.expr(node.args[0].elts[0], env), self.expr(node.args[0].elts[1], env)
+            if ta == tb_ == ("list", INT):
+                return f"({a} ++ {b})", ("list", INT)       # rows stacked under rows
         if fname in ("np.asanyarray", "np.asarray", "list", "tuple") and len(args) == 1 and not node.keywords:
             return args[0]          # elementwise reading / tuple-as-list
         if fname == "np.array" and len(args) == 1 and [k.arg for k in node.keywords] in ([], ["dtype"]):
@@ -945,6 +971,21 @@ class Tr:
         """`name[k] = e` on a tuple-typed (list-valued) variable with a constant index"""
         base = self.dotted(tgt.value)
         sl_ = tgt.slice
+        if base is not None and base in env and env[base][1] == ("list", INT) and isinstance(sl_, ast.Slice) \
+                and sl_.step is None and sl_.lower is not None:
+            # numpy `x[lo:hi] = e` on a 1-D array: shapes must agree (or e has one element), else ValueError
+            if not self.raises:
+                raise TranslationError("slice store in a function declared not to raise")
+            lo, tl = self.expr(sl_.lower, env)
+            hi, th = self.expr(sl_.upper, env) if sl_.upper is not None else ("none", None)
+            e, t = self.expr(s.value, env)
+            if tl != INT or th not in (INT, None) or t != ("list", INT):
+                raise TranslationError(f"assignment target {ast.unparse(tgt)}")
+            his = "none" if th is None else f"(some {hi})"
+            env2 = dict(env)
+            env2[base] = (mangle(base), ("list", INT))
+            return (f"(match pySliceStore {env[base][0]} {lo} {his} {e} with\n| none => none\n| some {mangle(base)} =>\n"
+                    f"{indent(cont(env2))})")
         if isinstance(sl_, ast.UnaryOp) and isinstance(sl_.op, ast.USub) and isinstance(sl_.operand, ast.Constant) \
                 and isinstance(sl_.operand.value, int):
             sl_ = ast.Constant(value=-sl_.operand.value)
@@ -1338,6 +1379,16 @@ SPECS = [
          guard=lambda fn: isinstance(fn.body[1], ast.If) and not fn.body[1].orelse and len(fn.body[1].body) == 1
          and _same(fn.body[1].body[0], "return np.full((2,) + tuple(target_area.shape), np.nan)"),
          owners=["C09"]),
+    # ---- C19: RowAppendableArray, one append of a 1-D array (or of a stack of rows, read row by row) and the final view ----
+    dict(name="row_append", file="pyresample/utils/row_appendable_array.py", func="RowAppendableArray.append_row", mode="fragment",
+         raises=True,
+         params=[("np.empty.fill", INT), ("self._reserved_capacity", INT), ("self._data", opt(("list", INT))), ("self._cursor", INT),
+                 ("next_array", ("list", INT))],
+         outputs=["self._data", "self._cursor"], output_types={"self._data": ("list", INT), "self._cursor": INT},
+         select=_whole, owners=["C19"]),
+    dict(name="row_to_array", file="pyresample/utils/row_appendable_array.py", func="RowAppendableArray.to_array",
+         params=[("self._data", ("list", INT)), ("self._cursor", INT)], returns=("list", INT),
+         select=_whole, owners=["C19"]),
     dict(name="chunk_slice", file="pyresample/slicer.py", func="_enumerate_chunk_slices",
          params=[("chunk", ("list", INT)), ("pos", INT)], returns=sl(INT),
          select=lambda fn: list(fn.body[1].body[1].body[:2]) + [ast.Return(value=fn.body[1].body[1].body[2].value.args[0])],
